@@ -17,6 +17,18 @@
 //!    prefix and the body are separate socket calls, each of which may accept k bytes or
 //!    would-block; `vectored == true`: `is_write_vectored()` and a gathering `poll_write_vectored`.
 //!
+//! Wrappers (`Case::wrap`), same scripts, same sockets, same oracle:
+//!  * `raw`    — the driver polls the `TcpStream` itself;
+//!  * `client` — the driver polls `TcpClientStream::from_stream(<that TcpStream>)`, the wrapper every
+//!    TCP client connection uses (`TcpClientStream::new` / `::exchange` build exactly this; the
+//!    `DnsMultiplexer` polls it). Its items are `Result<SerialMessage, NetError>`; they are mapped
+//!    onto the same observed shape (Ok(bytes, addr) / Err / None / Pending) and judged by the same
+//!    four clauses, so an inner error item that the wrapper swallows, turns into a clean end, or
+//!    repeats shows under `terminal` / `items`. The outbound side is the same `BufDnsStreamHandle`.
+//!    Every enumerated composition (W1, W3a) gets extra repetitions under `client` (both socket
+//!    flavours), every W2a plan runs once more under `client`, and 1 in 3 of the random cases
+//!    (W2b, W3b) is polled through it. Signature prefix `client:`.
+//!
 //! Part T (`idle.rs`): the server's read stack `TimeoutStream<TcpStream<..>>` under virtual time.
 //!
 //! Oracle (reference = the list of message lengths the case was built from, nothing of hickory):
@@ -43,11 +55,11 @@ mod tsock;
 use std::sync::{Arc, Mutex};
 use std::task::{Context, Poll};
 
-use futures::stream::StreamExt;
+use futures::stream::{Stream, StreamExt};
 use hickory_net::runtime::iocompat::AsyncIoTokioAsStd;
 use hickory_net::runtime::DnsTcpStream;
-use hickory_net::tcp::TcpStream;
-use hickory_net::DnsStreamHandle;
+use hickory_net::tcp::{TcpClientStream, TcpStream};
+use hickory_net::{BufDnsStreamHandle, DnsStreamHandle};
 use hickory_proto::op::SerialMessage;
 use serde_json::{json, Value};
 
@@ -91,10 +103,38 @@ impl Sock {
     }
 }
 
+/// which stream the driver polls
+#[derive(Clone, Copy, Debug, Default, PartialEq, Eq)]
+pub enum Wrap {
+    /// the `TcpStream` itself
+    #[default]
+    Raw,
+    /// `TcpClientStream::from_stream(<the TcpStream>)`
+    Client,
+}
+
+impl Wrap {
+    pub fn name(self) -> &'static str {
+        match self {
+            Wrap::Raw => "raw",
+            Wrap::Client => "client",
+        }
+    }
+    pub fn from_name(s: &str) -> Wrap {
+        if s == "client" {
+            Wrap::Client
+        } else {
+            Wrap::Raw
+        }
+    }
+}
+
 #[derive(Clone, Debug, Default)]
 struct Case {
     /// discriminator of the socket flavour (absent in old witnesses = direct)
     sock: Sock,
+    /// discriminator of the polled wrapper (absent in old witnesses = raw)
+    wrap: Wrap,
     /// lengths of the messages the peer sends
     inbound: Vec<usize>,
     /// stream offset at which the peer closes (None: connection stays open)
@@ -116,7 +156,7 @@ struct Case {
 
 impl Case {
     fn to_json(&self) -> Value {
-        json!({"kind": "framing", "sock": self.sock.name(), "inbound": self.inbound, "close": self.close, "rsteps": self.rsteps, "outbound": self.outbound,
+        json!({"kind": "framing", "sock": self.sock.name(), "wrap": self.wrap.name(), "inbound": self.inbound, "close": self.close, "rsteps": self.rsteps, "outbound": self.outbound,
                "send_at": self.send_at, "wsteps": self.wsteps, "fsteps": self.fsteps, "vectored": self.vectored,
                "drop_handle": self.drop_handle})
     }
@@ -134,6 +174,7 @@ impl Case {
         let is = |k: &str| -> Vec<i64> { v[k].as_array().map(|a| a.iter().filter_map(|x| x.as_i64()).collect()).unwrap_or_default() };
         Case {
             sock: Sock::from_name(v["sock"].as_str().unwrap_or("direct")),
+            wrap: Wrap::from_name(v["wrap"].as_str().unwrap_or("raw")),
             inbound: us("inbound"),
             close: v["close"].as_u64().map(|x| x as usize),
             rsteps: is("rsteps"),
@@ -274,7 +315,20 @@ fn run_case(c: &Case) -> Obs {
 }
 
 fn drive<S: DnsTcpStream>(c: &Case, sock: S, state: Arc<Mutex<TcpState>>, outl: &Layout, limit: usize) -> Obs {
-    let (mut stream, handle) = TcpStream::from_stream(sock, peer());
+    let (stream, handle) = TcpStream::from_stream(sock, peer());
+    match c.wrap {
+        Wrap::Raw => poll_loop(c, stream, handle, state, outl, limit, |e: &std::io::Error| format!("{:?}: {e}", e.kind())),
+        // the same TcpStream, the same handle; only the polled object differs
+        Wrap::Client => poll_loop(c, TcpClientStream::from_stream(stream), handle, state, outl, limit, |e: &hickory_net::NetError| format!("NetError: {e}")),
+    }
+}
+
+/// the hand-rolled executor: identical for both wrappers (the item's error type is the only
+/// difference, and it is only rendered into the witness, never judged)
+fn poll_loop<St, E>(c: &Case, mut stream: St, handle: BufDnsStreamHandle, state: Arc<Mutex<TcpState>>, outl: &Layout, limit: usize, describe: impl Fn(&E) -> String) -> Obs
+where
+    St: Stream<Item = Result<SerialMessage, E>> + Unpin,
+{
     let mut handle = Some(handle);
     let (flag, waker) = FlagWaker::new();
     let mut cx = Context::from_waker(&waker);
@@ -303,7 +357,7 @@ fn drive<S: DnsTcpStream>(c: &Case, sock: S, state: Arc<Mutex<TcpState>>, outl: 
                 let (b, a) = m.into_parts();
                 items.push((b, a));
             }
-            Ok(Poll::Ready(Some(Err(e)))) => break Terminal::Err(format!("{:?}: {e}", e.kind())),
+            Ok(Poll::Ready(Some(Err(e)))) => break Terminal::Err(describe(&e)),
             Ok(Poll::Ready(None)) => break Terminal::End,
             Ok(Poll::Pending) => {
                 if flag.take() {
@@ -586,10 +640,24 @@ fn observe(rep: &mut Reporter, c: &Case, o: &Obs) {
     }
     rep.count(&format!("terminal/{}", o.terminal.kind()));
     rep.add("items_ok", o.items.len() as u64);
+    // polled wrapper
+    let w = c.wrap.name();
+    rep.count(&format!("wrap/{w}"));
+    rep.count(&format!("wrap_sock/{w}/{}", c.flavour()));
+    rep.count(&format!("wrap_terminal/{w}/{}", o.terminal.kind()));
+    match c.close {
+        Some(k) => rep.count(&format!("wrap_close/{w}/{}", if k.min(total_in) == 0 { "frame" } else { class_of(k.min(total_in), &inf) })),
+        None => rep.count(&format!("wrap_close/{w}/open")),
+    }
+    rep.add(&format!("wrap_items_ok/{w}"), o.items.len() as u64);
+    if st.written.len() == total_out && total_out > 0 {
+        rep.count(&format!("wrap_outbound_complete/{w}"));
+    }
     rep.add("polls", o.polls as u64);
     if per_frame.iter().any(|&n| n >= 2) {
         rep.nontrivial(fnv64(c.to_json().to_string().as_bytes()));
         rep.count("nontrivial_cases");
+        rep.count(&format!("wrap_nontrivial_cases/{w}"));
     }
 }
 
@@ -601,6 +669,8 @@ fn check(rep: &mut Reporter, c: &Case) {
     for v in vs {
         // same clause, same structural situation, but the bytes went through the tokio adapter
         let sig = if c.sock == Sock::Tokio { format!("{}|via-tokio-adapter", v.sig) } else { v.sig };
+        // same clause, but the polled object was the client wrapper around the TcpStream
+        let sig = if c.wrap == Wrap::Client { format!("client:{sig}") } else { sig };
         rep.violation(v.rule, &sig, c.to_json(), v.expected, v.observed);
     }
     rep.sample(|| json!({"case": c.to_json(), "terminal": o.terminal.kind(), "items": o.items.len(), "polls": o.polls}));
@@ -611,6 +681,10 @@ fn check_in(rep: &mut Reporter, family: &str, c: &Case) {
     check(rep, c);
     rep.count(&format!("{family}_cases"));
     rep.count(&format!("{family}_cases/{}", c.sock.name()));
+    if c.wrap == Wrap::Client {
+        rep.count(&format!("{family}_cases/client"));
+        rep.count(&format!("{family}_cases/client/{}", c.sock.name()));
+    }
 }
 
 /// socket flavour of the i-th repetition of an enumerated composition: alternate, so that every
@@ -620,6 +694,19 @@ fn sock_of_rep(i: u64) -> Sock {
         Sock::Tokio
     } else {
         Sock::Direct
+    }
+}
+
+/// repetitions of an enumerated composition that are added under the client wrapper (≥ 2, so that
+/// the alternation of `sock_of_rep` puts both socket flavours under it)
+fn client_reps(reps: u64) -> u64 {
+    ((reps + 1) / 2).max(2)
+}
+
+/// polled wrapper of a randomly generated case: 1 in 3 through `TcpClientStream`
+fn random_wrap(r: &mut Rng, c: &mut Case) {
+    if r.below(3) == 0 {
+        c.wrap = Wrap::Client;
     }
 }
 
@@ -888,6 +975,25 @@ fn main() {
     rep.must("tokio_eof_reads", 300_000);
     rep.must("outbound_complete/tokio-plain", 200_000);
     rep.must("outbound_complete/tokio-vec", 200_000);
+    // polled wrapper: a run that never (or hardly) polled through TcpClientStream is inconclusive
+    rep.must("wrap/raw", 1_900_000);
+    rep.must("wrap/client", 1_000_000);
+    for (k, min) in [("end", 200_000), ("err", 250_000), ("pending", 500_000)] {
+        rep.must(&format!("wrap_terminal/client/{k}"), min);
+    }
+    for (k, min) in [("frame", 200_000), ("in-prefix", 35_000), ("prefix-body", 55_000), ("in-body", 150_000)] {
+        rep.must(&format!("wrap_close/client/{k}"), min);
+    }
+    for (k, min) in [("direct-writev", 350_000), ("direct-plain", 140_000), ("tokio-plain", 250_000), ("tokio-vec", 250_000)] {
+        rep.must(&format!("wrap_sock/client/{k}"), min);
+    }
+    for (k, min) in [("w1", 290_000), ("w2a", 9_000), ("w2b", 80_000), ("w3a", 60_000), ("w3b", 55_000)] {
+        rep.must(&format!("{k}_cases/client/tokio"), min);
+        rep.must(&format!("{k}_cases/client/direct"), min);
+    }
+    rep.must("wrap_items_ok/client", 1_900_000);
+    rep.must("wrap_outbound_complete/client", 750_000);
+    rep.must("wrap_nontrivial_cases/client", 700_000);
     // part T
     rep.must("t_cases", 50_000);
     rep.must("t_sock/tokio", 30_000);
@@ -906,6 +1012,7 @@ fn main() {
     rep.must("t_timer_disabled", 2_500);
 
     let reps = if ctx.is_thorough() { ((48.0 * ctx.scale) as u64).max(1) } else { ((3.0 * ctx.scale) as u64).max(1) };
+    let creps = client_reps(reps);
 
     // ---- W1: every composition of the inbound stream × every close offset, totals ≤ 14 bytes
     {
@@ -923,8 +1030,12 @@ fn main() {
                     if !ctx.mine(idx) {
                         continue;
                     }
-                    for i in 0..reps {
+                    // the last `creps` repetitions are polled through TcpClientStream
+                    for i in 0..reps + creps {
                         let mut c = Case { inbound: seq.clone(), close, ..Default::default() };
+                        if i >= reps {
+                            c.wrap = Wrap::Client;
+                        }
                         let b = if cut == 0 { vec![] } else { bounds_from_mask(cut, mask) };
                         let p = pend_level(&mut r);
                         c.rsteps = with_pends(&mut r, &b, p);
@@ -995,12 +1106,15 @@ fn main() {
                 if !ctx.mine(idx) {
                     continue;
                 }
-                let mut c = Case { inbound: seq.clone(), close, ..Default::default() };
-                let p = pend_level(&mut r);
-                c.rsteps = with_pends(&mut r, &b, p);
-                random_outbound(&mut r, &mut c, true);
-                random_sock(&mut r, &mut c);
-                check_in(&mut rep, "w2a", &c);
+                // every plan once as it is and once more through TcpClientStream
+                for wrap in [Wrap::Raw, Wrap::Client] {
+                    let mut c = Case { inbound: seq.clone(), close, wrap, ..Default::default() };
+                    let p = pend_level(&mut r);
+                    c.rsteps = with_pends(&mut r, &b, p);
+                    random_outbound(&mut r, &mut c, true);
+                    random_sock(&mut r, &mut c);
+                    check_in(&mut rep, "w2a", &c);
+                }
             }
         }
     }
@@ -1028,6 +1142,7 @@ fn main() {
             c.rsteps = with_pends(&mut r, &b, p);
             random_outbound(&mut r, &mut c, false);
             random_sock(&mut r, &mut c);
+            random_wrap(&mut r, &mut c);
             check_in(&mut rep, "w2b", &c);
         }
     }
@@ -1046,8 +1161,10 @@ fn main() {
                     if !ctx.mine(idx) {
                         continue;
                     }
-                    for i in 0..reps {
-                        let mut c = Case { outbound: seq.clone(), vectored, sock: sock_of_rep(idx / 2 + i), ..Default::default() };
+                    // the last `creps` repetitions are polled through TcpClientStream
+                    for i in 0..reps + creps {
+                        let wrap = if i >= reps { Wrap::Client } else { Wrap::Raw };
+                        let mut c = Case { outbound: seq.clone(), vectored, sock: sock_of_rep(idx / 2 + i), wrap, ..Default::default() };
                         c.send_at = (0..seq.len()).map(|_| if r.chance(3, 4) { 0 } else { r.usize_below(5) }).collect();
                         c.send_at.sort_unstable();
                         let b = bounds_from_mask(n, mask);
@@ -1092,6 +1209,7 @@ fn main() {
             c.drop_handle = r.chance(1, 4);
             random_inbound(&mut r, &mut c);
             random_sock(&mut r, &mut c);
+            random_wrap(&mut r, &mut c);
             check_in(&mut rep, "w3b", &c);
         }
     }
